@@ -1589,13 +1589,18 @@ def install_pool(mon):
         # radially truncated latent priors: nothing outside the contour
         if self.latent_prior in ("truncated_gaussian", "uniform_nsphere",
                                  "uniform_nball") and s.size:
-            rep = repr(getattr(self, "reparameterisations", None)).lower() \
-                + " ".join(type(r).__name__.lower() + str(getattr(
-                    r, "boundary_inversion", "")) for r in getattr(
-                        self._reparameterisation, "values", lambda: [])())
-            stochastic = any(w in rep for w in ("angle", "cartesian")) or \
-                "true" in rep or "[" in rep and "inversion" in rep or \
-                getattr(self, "augment_dims", 0)
+            stochastic = bool(getattr(self, "augment_dims", 0))
+            try:
+                reps = list(self._reparameterisation.values())
+            except Exception:  # noqa: BLE001
+                reps = []
+                stochastic = True
+            for r in reps:
+                if type(r).__name__ in ("Angle", "ToCartesian", "AnglePair") \
+                        or getattr(r, "boundary_inversion", False) \
+                        or getattr(r, "chi", False):
+                    # forward map draws a random branch / auxiliary radius
+                    stochastic = True
             if not stochastic:
                 state = np.random.get_state()
                 try:
